@@ -49,6 +49,12 @@ func (a *AndStrategy) Compute(snapshots <-chan *asset.Snapshot) <-chan Action {
 		for {
 			buy, _, sell, ok := CountActions(sources)
 			if !ok {
+				// One of the sources has ended. Consume the others so
+				// that the strategies behind them can finish as well.
+				for _, source := range sources {
+					go helper.Drain(source)
+				}
+
 				break
 			}
 
